@@ -32,6 +32,8 @@ pub struct Run {
     pub salts: Vec<(String, [u8; 32])>,
     pub cdh: Vec<u8>,
     pub seen_ids: Vec<Vec<u8>>,
+    /// concurrent mode: the shared store's contents, read through the lock wrapper
+    pub extern_contents: Option<Vec<Passkey>>,
 }
 
 fn alg_of(name: &str) -> iana::Algorithm {
@@ -52,6 +54,11 @@ pub fn build_auth(cfg: &Value, creds: Vec<Passkey>, sh: &Sh) -> Auth {
         sh,
     );
     let uv = TUv { sh: sh.clone(), uv_cap: uv_cap_of(cfg["uvCap"].as_str().unwrap()), up_cap: cfg["upCap"].as_bool().unwrap() };
+    build_auth_with(cfg, store, uv)
+}
+
+/// An authenticator over any store, configured from the abstract configuration record.
+pub fn build_auth_with<S: passkey_authenticator::CredentialStore>(cfg: &Value, store: S, uv: TUv) -> Authenticator<S, TUv> {
     let mut aaguid = [0u8; 16];
     aaguid.copy_from_slice(b"pkverif-aaguid-1");
     let mut a = Authenticator::new(Aaguid(aaguid), store, uv);
@@ -66,9 +73,10 @@ pub fn build_auth(cfg: &Value, creds: Vec<Passkey>, sh: &Sh) -> Auth {
     }
 }
 
+
 impl Run {
     pub fn new(seed: u64) -> Self {
-        Run { sh: new_shared(), client: None, cfg: Value::Null, rng: util::rng(seed), salts: vec![], cdh: vec![], seen_ids: vec![] }
+        Run { sh: new_shared(), client: None, cfg: Value::Null, rng: util::rng(seed), salts: vec![], cdh: vec![], seen_ids: vec![], extern_contents: None }
     }
 
     pub fn reset(&mut self, run: u64, cfg: &Value, store: &Value) {
@@ -253,7 +261,7 @@ impl Run {
             }
         }
         // secrets of other credentials in the store: an output keyed with one of them is a different failure
-        let others: Vec<Passkey> = self.client.as_ref().map(|c| c.authenticator().store().contents()).unwrap_or_default();
+        let others: Vec<Passkey> = if let Some(c) = &self.extern_contents { c.clone() } else { self.client.as_ref().map(|c| c.authenticator().store().contents()).unwrap_or_default() };
         for (sn, sec) in &secrets {
             for (name, salt) in &self.salts {
                 if rp::hmac_sha256(sec, salt)[..] == *out {
@@ -285,6 +293,9 @@ impl Run {
     }
 
     pub fn stored(&self, id: &[u8]) -> Option<Passkey> {
+        if let Some(c) = &self.extern_contents {
+            return c.iter().find(|p| p.credential_id[..] == *id).cloned();
+        }
         self.client.as_ref().unwrap().authenticator().store().contents().into_iter().find(|p| p.credential_id[..] == *id)
     }
 
